@@ -226,13 +226,13 @@ def _isolated_check(assertions, timeout_s, want_model):
     return out["r"], model
 
 
-def solve(assertions, timeout_s: float = 5.0, want_model=False, cli=True):
+def solve(assertions, timeout_s: float = 5.0, want_model=False, cli=True, inproc_budget=4.0):
     """Decide satisfiability of the conjunction.  Returns (verdict, backend,
     model-or-None); verdict in {'sat','unsat','unknown'}; a model is a dict
     symbol name -> Python value."""
     t0 = time.time()
-    inproc = min(timeout_s, 4.0)
-    r, model = _isolated_check(assertions, inproc, want_model)
+    inproc = min(timeout_s, inproc_budget)
+    r, model = _isolated_check(assertions, inproc, want_model) if inproc > 0 else ("unknown", None)
     if r in ("sat", "unsat"):
         STATS.note("z3py-5.1.0", time.time() - t0)
         return r, "z3py-5.1.0", model
@@ -285,9 +285,10 @@ class Event:
 
 
 class Context:
-    def __init__(self, feas_timeout=2.0):
+    def __init__(self, feas_timeout=2.0, feas_retry=True):
         self.schedule: List[bool] = []
         self.feas_timeout = feas_timeout
+        self.feas_retry = feas_retry
         self.reset_run()
         self.counter = itertools.count()
         self.symbols: dict = {}  # name -> (kind, term) for model read-back
@@ -323,7 +324,7 @@ class Context:
         assuming an infeasible path feasible is sound for the proof but sends the execution into states the code can
         never be in (spurious IndexError in a contract's setup, operations outside the modelled fragment)."""
         v, _, _ = solve(terms, self.feas_timeout, cli=False)
-        if v == "unknown":
+        if v == "unknown" and self.feas_retry:
             v, _, _ = solve(terms, 5 * self.feas_timeout, cli=False)
         return v
 
@@ -394,11 +395,11 @@ def set_ctx(c):
     CTX = c
 
 
-def explore(run: Callable[[Context], Any], max_paths=4000, feas_timeout=2.0):
+def explore(run: Callable[[Context], Any], max_paths=4000, feas_timeout=2.0, feas_retry=True):
     """Depth-first exploration of all decision sequences of run(ctx).
     Yields (ctx-after-run, outcome) where outcome is ('ok', value) or
     ('exc', exception) for every feasible complete path."""
-    c = Context(feas_timeout)
+    c = Context(feas_timeout, feas_retry)
     old = CTX
     set_ctx(c)
     # Alternatives bookkeeping: trail entries created live carry has_alt; we
